@@ -834,14 +834,18 @@ class AdapterLookupBase:
         order = len(required)
         for registry in self._registry.ro:
             byorder = registry._adapters
-            if order >= len(byorder):
+            try:
+                # Another thread may remove the last registration of
+                # this many required specifications (and trim the
+                # list) at any time: don't test the length first.
+                components = byorder[order]
+            except IndexError:
                 continue
 
             extendors = registry._v_lookup._extendors.get(provided)
             if not extendors:
                 continue
 
-            components = byorder[order]
             result = _lookup(components, required, extendors, name, 0,
                              order)
             if result is not None:
@@ -870,12 +874,14 @@ class AdapterLookupBase:
         result = {}
         for registry in reversed(self._registry.ro):
             byorder = registry._adapters
-            if order >= len(byorder):
+            try:
+                # See _uncached_lookup: no length test first.
+                components = byorder[order]
+            except IndexError:
                 continue
             extendors = registry._v_lookup._extendors.get(provided)
             if not extendors:
                 continue
-            components = byorder[order]
             _lookupAll(components, required, extendors, result, 0, order)
 
         self._subscribe(*required)
@@ -891,7 +897,10 @@ class AdapterLookupBase:
         result = []
         for registry in reversed(self._registry.ro):
             byorder = registry._subscribers
-            if order >= len(byorder):
+            try:
+                # See _uncached_lookup: no length test first.
+                components = byorder[order]
+            except IndexError:
                 continue
 
             if provided is None:
@@ -901,7 +910,7 @@ class AdapterLookupBase:
                 if extendors is None:
                     continue
 
-            _subscriptions(byorder[order], required, extendors, '',
+            _subscriptions(components, required, extendors, '',
                            result, 0, order)
 
         self._subscribe(*required)
